@@ -43,7 +43,7 @@ def render_item(it, gapdir=None):
         return (m + ' ' + ', '.join(reg(v) if s == 'r' and not (m in ('slli', 'srli', 'srai') and j == 2) else str(v)
                                     for j, (s, v) in enumerate(zip(sig, ops)))).strip()
     if k == 'pins':
-        if m in ('nop', 'ret'):
+        if m in ('nop', 'ret', 'fence'):
             return m
         if m in ('jr', 'jalr'):
             return '%s %s' % (m, reg(a))
@@ -158,7 +158,7 @@ def run_programs(args):
     return out
 
 
-def validate(records, scratch, run=None, shard=1500):
+def validate(records, scratch, run=None, shard=1500, module='LayoutTrace', parts=3):
     """TLC judges every record; returns {record index: (nc fails, c fails, relational fails)} for the bad ones."""
     jobs, files = [], []
     for k in range(0, len(records), shard):
@@ -167,17 +167,17 @@ def validate(records, scratch, run=None, shard=1500):
             json.dump([{'prog': r['prog'], 'nc': _strip(r['nc']), 'c': _strip(r['c'])} for r in records[k:k + shard]],
                       f, separators=(',', ':'))
         files.append((k, p))
-        jobs.append(dict(module='LayoutTrace', env={'RECS_FILE': p}, workers=1, scratch=scratch, timeout=3600, heap='3g'))
+        jobs.append(dict(module=module, env={'RECS_FILE': p}, workers=1, scratch=scratch, timeout=3600, heap='3g'))
     bad = {}
     for (k, p), r in zip(files, tlc.run_many(jobs)):
         n = min(shard, len(records) - k)
         if r.distinct != n:
-            raise tlc.TlcFailure('LayoutTrace judged %d of %d records: %s' % (r.distinct, n, r.out[-1500:]))
+            raise tlc.TlcFailure('%s judged %d of %d records: %s' % (module, r.distinct, n, r.out[-1500:]))
         if run is not None:
-            run.add_tlc('LayoutTrace', r, kind='trace-validation')
+            run.add_tlc(module, r, kind='trace-validation')
         for v in r.printed():
             if v and v[0] == 'BAD':
-                bad[k + v[1] - 1] = tuple([tuple(x) for x in part['set']] for part in v[2:5])
+                bad[k + v[1] - 1] = tuple([tuple(x) for x in part['set']] for part in v[2:2 + parts])
         os.unlink(p)
     return bad
 
